@@ -846,6 +846,9 @@ def gen_token_cases(ctx):
         # scope
         var(prefix=None), var(prefix=[]), var(prefix=['other']), var(prefix=['other', 'x' + BUCKET]),
         var(prefix=[BUCKET + '/y']),
+        # substrings of the path that are not prefixes of it, leading slash, wrong case
+        var(prefix=['x/0']), var(prefix=[BUCKET[1:]]), var(prefix=['.npy', '00000']), var(prefix=['/' + BUCKET]),
+        var(prefix=[BUCKET.upper()]),
     ]
     cases = []
     for d in toks:
